@@ -13,6 +13,10 @@ checks = {
    technique="stateless model checking: exhaustive enumeration of goroutine interleavings (delay-bounded / to saturation) of the real SyncChain + store stack under a controlled scheduler",
    text="Every interleaving (at channel/mutex/select/spawn granularity) of the real SyncChain server routine with a concurrent appender on the real callback/append/scheme store stack over memdb, trimmed and untrimmed bolt is enumerated — to saturation where the tree is small enough, otherwise up to the deviation bound completed within the budget (reported) — and the delivered sequence is checked against the store: from the requested round, gap-free, no repeats, byte-equal, complete at quiescence. This is the level the property needs: it is a statement about all interleavings of two real goroutines, which a test samples once.",
    note="Scheduling points are the instrumented concurrency operations of internal/chain/beacon and internal/chain/memdb; bbolt calls are atomic steps on pre-grown database files; stream.Send is instantaneous; placeholder signatures (SyncChain copies, never verifies). Trusted: Go toolchain, the instrumenter's rewrite rules (self-tested), the vrt scheduler."),
+ "C12": dict(engine=E1, category="model_checking", design="3/C12",
+   technique="stateless model checking of goroutine interleavings (delay-bounded) of the real store stack + SyncChain with stalled/slow/failing consumers; explicit-state BFS over Append/Flush sequences on the real partial cache",
+   text="c12-stall: every schedule with at most K deviations (K reported, 2-3) of {stalled | slow | failing stream consumers, a healthy consumer, a local reader, an appender storing more beacons than all queues hold} on the real callback/append/scheme store stack with the callback queue scaled to 2 must let the appender finish every Put and give the healthy consumer a gap-free sequence. c12-cache: breadth-first search over all Append/store sequences (flooding member, honest member, fresh previous signatures) to depth 8/11 on the real partialCache with the per-member limit scaled to 3, with de-duplication on a canonical form; in every state the cache and its per-member bookkeeping are bounded by members x limit and no partial of the honest member for a round not yet stored has disappeared.",
+   note="CallbackWorkerQueue 100->2 and MaxPartialsPerNode 100->3 are rewritten in the instrumented copy only (the code using them is unchanged). A stalled consumer is a Send that never returns. Without fairness the scheduler may starve the healthy stream until it is disconnected as too slow; that outcome is accepted (its delivered prefix is still checked). bbolt's writer-waits-for-open-read-transaction behaviour when the file must grow is outside the exploration (pre-grown files)."),
 }
 
 na_default = "check not built yet in this session (work in progress; see DESIGN.md section 3 for the planned model-checking design)"
